@@ -373,9 +373,10 @@ def well_formed(prog_json):
 
 
 def minimise(case, bucket):
-    """Bounded delta debugging (count budgets): drop functor statements, then rules,
-    then body literals of the remaining rules while the same bucket still fails for
-    the same predicate."""
+    """Bounded delta debugging (count budgets): drop functor statements, then whole
+    rules / facts, while the program stays well-formed and the same bucket still fails
+    for the same predicate (body literals are kept: dropping them breaks range
+    restriction)."""
     def fails(c):
         return well_formed(c['prog']) and any(b == bucket for b, d in check_case(c))
 
@@ -394,19 +395,4 @@ def minimise(case, bucket):
     rs = core.ddmin(list(case['prog']['rules']),
                     lambda sub: fails(variant(rules=list(sub))), max_tests=60)
     case = variant(rules=list(rs))
-    left = 30
-    for i, r in enumerate(list(case['prog']['rules'])):
-        body = list(r.get('body') or ())
-        if len(body) < 2 or left <= 0:
-            continue
-
-        def with_body(b, i=i, r=r):
-            rules = list(case['prog']['rules'])
-            rules[i] = dict(r, body=list(b))
-            return variant(rules=rules)
-        n = min(left, 8)
-        left -= n
-        b = core.ddmin(body, lambda sub: fails(with_body(sub)), max_tests=n)
-        if len(b) < len(body):
-            case = with_body(b)
     return case
